@@ -15,6 +15,9 @@
      C02_blocks_inc, C02_roundtrip_inc_multi, _nojunk        block theorem, .inc (filter state)
      C02_blocks_dtd(_bom), C02_roundtrip_dtd_multi(_bom)     block theorem, .dtd
      C02_blocks_properties_junk, C02_junk_properties         junk regions in .properties
+     C02_blocks_ini_junk, C02_roundtrip_ini_junk, C02_junk_ini   junk regions in .ini
+     C02_blocks_dtd_junk(_bom), C02_roundtrip_dtd_junk, C02_junk_dtd   junk regions in .dtd
+     C02_blocks_inc_junk, C02_roundtrip_inc_junk, C02_junk_inc   junk regions in .inc
      C02_blocks_po, C02_roundtrip_po_multi                   block theorem, .po (with values)
    Stated, not proved (see the end of the file): what is still missing of
    C02_roundtrip_<fmt> of DESIGN.md section 4; those clauses are covered by the
@@ -25,7 +28,8 @@ From CL Require Import Base.Sx Base.Res Base.Str Regex.Rx Model.Entry Model.Pars
   Proofs.C02License Proofs.UnescapeProofs Proofs.C02Po Proofs.C02Props Proofs.C02Roundtrip
   Proofs.C02Blocks.
 From CL Require Proofs.C02BlocksIni Proofs.C02BlocksInc Proofs.C02BlocksJunkRx Proofs.C02BlocksJunk
-  Proofs.C02BlocksDtd Proofs.C02BlocksPoRx Proofs.C02BlocksPo Proofs.C02BlocksPoVal.
+  Proofs.C02BlocksDtd Proofs.C02BlocksPoRx Proofs.C02BlocksPo Proofs.C02BlocksPoVal
+  Proofs.C02BlocksIniJunk Proofs.C02BlocksDtdJunk Proofs.C02BlocksIncJunk.
 Import ListNotations.
 
 (* ---- (a) the License rule -------------------------------------------------------------
@@ -338,6 +342,79 @@ Example C02_blocks_inc_example :
    (KWhitespace, (118, 119)); (KComment, (119, 125)); (KJunk, (125, 127)); (KEntity, (127, 139))].
 Proof. split; [repeat constructor|]. split; [vm_compute; reflexivity|]. split; vm_compute; reflexivity. Qed.
 
+(* ---- junk regions for .inc (Proofs/C02BlocksIncJunk.v) --------------------------------------------
+   The blocks of C02_blocks_inc plus garbage regions [NJG g]: any nonempty text without "#" that
+   does not start with a newline.  A region is followed by the end of the file, comment lines, an
+   instruction or an entity, ends with a newline unless it is last, and does not directly follow a
+   standalone comment ([jnadjacent_ok]).  The walk yields ONE Junk entry per region, covering
+   exactly the region; the filter state passes through a region unchanged. *)
+Theorem C02_blocks_inc_junk : forall bs : list C02BlocksIncJunk.jnblock,
+  Forall C02BlocksIncJunk.legal_jnblock bs -> C02BlocksIncJunk.jnadjacent_ok bs ->
+  walk_defines (C02BlocksIncJunk.jnfile_text bs) = Ok (C02BlocksIncJunk.jnentries_of bs).
+Proof. exact C02BlocksIncJunk.blocks_inc_junk. Qed.
+
+(* the entities are exactly the records, the standalone comments the comment blocks, the
+   instructions the instruction blocks, and the texts of the Junk entries that are not runs of
+   newlines (those come from the empty-line rule of the format) are, one for one and in order,
+   exactly the garbage regions *)
+Theorem C02_roundtrip_inc_junk : forall bs : list C02BlocksIncJunk.jnblock,
+  Forall C02BlocksIncJunk.legal_jnblock bs -> C02BlocksIncJunk.jnadjacent_ok bs ->
+  let s := C02BlocksIncJunk.jnfile_text bs in
+  exists es, walk_defines s = Ok es /\
+    (map (C02BlocksInc.entity_nrecord s) (filter (C02BlocksInc.is_kind KEntity) es) =
+       C02BlocksIncJunk.jnrecords_of bs /\
+     map (fun e => C02BlocksInc.span_text s (e_span e)) (filter (C02BlocksInc.is_kind KComment) es) =
+       C02BlocksIncJunk.jncomments_of bs /\
+     map (fun e => C02BlocksInc.opt_text s (e_val e)) (filter (C02BlocksInc.is_kind KInstruction) es) =
+       C02BlocksIncJunk.jninstrs_of bs) /\
+    filter (fun t => negb (C02BlocksInc.all_nl t))
+           (map (fun e => C02BlocksInc.span_text s (e_span e)) (filter (C02BlocksInc.is_kind KJunk) es)) =
+      C02BlocksIncJunk.jngarbage_of bs.
+Proof. exact C02BlocksIncJunk.roundtrip_inc_junk. Qed.
+
+(* one garbage region inserted between two legal block lists: every record, comment and
+   instruction of both lists is recovered unchanged, in order; the only Junk entry that is not a
+   run of newlines is the region, and the entry with exactly the span of the region is there *)
+Theorem C02_junk_inc : forall (bs1 : list C02BlocksInc.nblock) (g : str) (bs2 : list C02BlocksInc.nblock),
+  Forall C02BlocksInc.legal_nblock bs1 -> C02BlocksIncJunk.legal_ngarbage g = true ->
+  Forall C02BlocksInc.legal_nblock bs2 ->
+  C02BlocksIncJunk.jnadjacent_ok (C02BlocksIncJunk.nwith_garbage bs1 g bs2) ->
+  let s := C02BlocksInc.nfile_text bs1 ++ g ++ C02BlocksInc.nfile_text bs2 in
+  let p := length (C02BlocksInc.nfile_text bs1) in
+  exists es, walk_defines s = Ok es /\
+    map (C02BlocksInc.entity_nrecord s) (filter (C02BlocksInc.is_kind KEntity) es) =
+      C02BlocksInc.nrecords_of bs1 ++ C02BlocksInc.nrecords_of bs2 /\
+    map (fun e => C02BlocksInc.span_text s (e_span e)) (filter (C02BlocksInc.is_kind KComment) es) =
+      C02BlocksInc.ncomments_of bs1 ++ C02BlocksInc.ncomments_of bs2 /\
+    map (fun e => C02BlocksInc.opt_text s (e_val e)) (filter (C02BlocksInc.is_kind KInstruction) es) =
+      C02BlocksInc.ninstrs_of bs1 ++ C02BlocksInc.ninstrs_of bs2 /\
+    C02BlocksIncJunk.junk_texts s es = [g] /\ In (mk_junk (p, p + length g)) es /\
+    slice s p (p + length g) = g.
+Proof. exact C02BlocksIncJunk.inc_junk_one_region. Qed.
+
+(*  #define k v w / garb, <empty line>, "x y" / # c, #define<tab>k2 / #inc  x.y : the premises hold,
+    the region is at offsets 14..24; and a longer file with a filter instruction and three
+    regions (the last without final newline), by evaluation *)
+Example C02_junk_inc_example :
+  let A := C02BlocksInc.A in
+  let g := A [103; 97; 114; 98; 10; 10; 120; 32; 121; 10] in
+  let bs1 := [C02BlocksInc.nx_e1] in let bs2 := [C02BlocksInc.nx_e2; C02BlocksInc.nx_incl] in
+  Forall C02BlocksInc.legal_nblock bs1 /\ C02BlocksIncJunk.legal_ngarbage g = true /\
+  Forall C02BlocksInc.legal_nblock bs2 /\
+  C02BlocksIncJunk.jnadjacent_ok (C02BlocksIncJunk.nwith_garbage bs1 g bs2) /\
+  length (C02BlocksInc.nfile_text bs1) = 14 /\ length g = 10 /\
+  let NJB := C02BlocksIncJunk.NJB in let NJG := C02BlocksIncJunk.NJG in
+  let bs := [NJB C02BlocksInc.nx_e1; C02BlocksIncJunk.njx_g; NJB C02BlocksInc.nx_e2; NJB C02BlocksInc.nx_filter;
+             NJB C02BlocksInc.nx_b1; NJG (A [106; 10]); NJB C02BlocksInc.nx_incl; NJG (A [116; 97; 105; 108])] in
+  Forall C02BlocksIncJunk.legal_jnblock bs /\ C02BlocksIncJunk.jnadjacent_ok bs /\
+  filter (C02BlocksInc.is_kind KJunk) (C02BlocksIncJunk.jnentries_of bs) =
+    [mk_junk (14, 24); mk_junk (59, 61); mk_junk (71, 75)].
+Proof.
+  split; [repeat constructor|]. split; [reflexivity|]. split; [repeat constructor|].
+  split; [vm_compute; reflexivity|]. split; [reflexivity|]. split; [reflexivity|].
+  split; [repeat constructor|]. split; vm_compute; reflexivity.
+Qed.
+
 (* ---- junk regions in .properties ("exactly the garbage is junk") ----------------------------
    Proofs/C02BlocksJunk.v.  A [jblock] is a block of C02_blocks_properties or a garbage region
    [JG gl]: lines (each ended by a newline) that contain none of "=" ":" "#" "!", the first of
@@ -393,6 +470,80 @@ Proof.
   split; [repeat constructor|]. split; vm_compute; reflexivity.
 Qed.
 
+(* ---- junk regions for .ini (Proofs/C02BlocksIniJunk.v) --------------------------------------------
+   The blocks of C02_blocks_ini plus garbage regions [IJG gl]: lines, each ended by a newline,
+   without "=" and "[" that do not start with ";" or "#", the first of which starts with a
+   non-whitespace character.  A region is followed by the end of the file, a comment, a section
+   header or an entity, and does not directly follow a standalone comment ([ijadjacent_ok]).
+   The walk yields ONE Junk entry per region, covering exactly the region. *)
+Theorem C02_blocks_ini_junk : forall bs : list C02BlocksIniJunk.ijblock,
+  Forall C02BlocksIniJunk.legal_ijblock bs -> C02BlocksIniJunk.ijadjacent_ok bs ->
+  walk_ini (C02BlocksIniJunk.ijfile_text bs) = Ok (C02BlocksIniJunk.ijentries_of bs).
+Proof. exact C02BlocksIniJunk.blocks_ini_junk. Qed.
+
+(* the entities are exactly the records, the standalone comments the comment blocks, the
+   sections the section headers, and the texts of the Junk entries are, one for one and in
+   order, exactly the garbage regions *)
+Theorem C02_roundtrip_ini_junk : forall bs : list C02BlocksIniJunk.ijblock,
+  Forall C02BlocksIniJunk.legal_ijblock bs -> C02BlocksIniJunk.ijadjacent_ok bs ->
+  exists es, walk_ini (C02BlocksIniJunk.ijfile_text bs) = Ok es /\
+    map (C02BlocksIni.entity_record (C02BlocksIniJunk.ijfile_text bs))
+        (filter (C02BlocksIni.is_kind KEntity) es) = C02BlocksIniJunk.ijrecords_of bs /\
+    map (fun e => C02BlocksIni.span_text (C02BlocksIniJunk.ijfile_text bs) (e_span e))
+        (filter (C02BlocksIni.is_kind KComment) es) = C02BlocksIniJunk.ijcomments_of bs /\
+    map (fun e => C02BlocksIni.opt_text (C02BlocksIniJunk.ijfile_text bs) (e_val e))
+        (filter (C02BlocksIni.is_kind KSection) es) = C02BlocksIniJunk.ijsections_of bs /\
+    map (fun e => C02BlocksIni.span_text (C02BlocksIniJunk.ijfile_text bs) (e_span e))
+        (filter (C02BlocksIni.is_kind KJunk) es) = C02BlocksIniJunk.ijgarbage_of bs.
+Proof. exact C02BlocksIniJunk.roundtrip_ini_junk. Qed.
+
+(* one garbage region inserted between two legal block lists: every record, comment and section
+   header of both lists is recovered unchanged, in order, and there is exactly ONE Junk entry;
+   its span starts where the text of the first list ends and covers exactly the garbage *)
+Theorem C02_junk_ini : forall (bs1 : list C02BlocksIni.iblock) (gl : list str) (bs2 : list C02BlocksIni.iblock),
+  Forall C02BlocksIni.legal_iblock bs1 -> C02BlocksIniJunk.legal_igarbage gl = true ->
+  Forall C02BlocksIni.legal_iblock bs2 ->
+  C02BlocksIniJunk.ijadjacent_ok (C02BlocksIniJunk.iwith_garbage bs1 gl bs2) ->
+  let s := C02BlocksIni.ifile_text bs1 ++ C02BlocksIniJunk.igtext gl ++ C02BlocksIni.ifile_text bs2 in
+  let p := length (C02BlocksIni.ifile_text bs1) in
+  exists es, walk_ini s = Ok es /\
+    map (C02BlocksIni.entity_record s) (filter (C02BlocksIni.is_kind KEntity) es) =
+      C02BlocksIni.irecords_of bs1 ++ C02BlocksIni.irecords_of bs2 /\
+    map (fun e => C02BlocksIni.span_text s (e_span e)) (filter (C02BlocksIni.is_kind KComment) es) =
+      C02BlocksIni.icomments_of bs1 ++ C02BlocksIni.icomments_of bs2 /\
+    map (fun e => C02BlocksIni.opt_text s (e_val e)) (filter (C02BlocksIni.is_kind KSection) es) =
+      C02BlocksIni.isections_of bs1 ++ C02BlocksIni.isections_of bs2 /\
+    filter (C02BlocksIni.is_kind KJunk) es = [mk_junk (p, p + length (C02BlocksIniJunk.igtext gl))] /\
+    slice s p (p + length (C02BlocksIniJunk.igtext gl)) = C02BlocksIniJunk.igtext gl.
+Proof. exact C02BlocksIniJunk.ini_junk_one_region. Qed.
+
+(*  [Str] / k=v / garb, <empty line>, " x;y" / ;c #d "a b = x ; y" / k2= : the premises hold, the
+    region is at offsets 10..21; and a longer file with three regions, by evaluation *)
+Example C02_junk_ini_example :
+  let A := C02BlocksIni.A in
+  let gl := [A [103; 97; 114; 98]; []; A [32; 120; 59; 121]] in
+  let bs1 := [C02BlocksIni.ix_sec; C02BlocksIni.ix_e1] in
+  let bs2 := [C02BlocksIni.ix_e2; C02BlocksIni.ix_e3] in
+  Forall C02BlocksIni.legal_iblock bs1 /\ C02BlocksIniJunk.legal_igarbage gl = true /\
+  Forall C02BlocksIni.legal_iblock bs2 /\
+  C02BlocksIniJunk.ijadjacent_ok (C02BlocksIniJunk.iwith_garbage bs1 gl bs2) /\
+  length (C02BlocksIni.ifile_text bs1) = 10 /\ length (C02BlocksIniJunk.igtext gl) = 11 /\
+  let IJB := C02BlocksIniJunk.IJB in
+  let bs := [IJB C02BlocksIni.ix_sec; IJB C02BlocksIni.ix_e1; C02BlocksIniJunk.ijx_g; IJB C02BlocksIni.ix_e2;
+             C02BlocksIniJunk.IJG [A [106]]; IJB C02BlocksIni.ix_sec; IJB C02BlocksIni.ix_b;
+             IJB C02BlocksIni.ix_c; IJB C02BlocksIni.ix_b; C02BlocksIniJunk.IJG [A [122]; []]] in
+  Forall C02BlocksIniJunk.legal_ijblock bs /\ C02BlocksIniJunk.ijadjacent_ok bs /\
+  map (fun e => (e_kind e, e_span e)) (C02BlocksIniJunk.ijentries_of bs) =
+  [(KSection, (0, 5)); (KWhitespace, (5, 6)); (KEntity, (6, 9)); (KWhitespace, (9, 10));
+   (KJunk, (10, 21)); (KEntity, (27, 38)); (KWhitespace, (38, 39)); (KJunk, (39, 41));
+   (KSection, (41, 46)); (KWhitespace, (46, 48)); (KComment, (48, 53)); (KWhitespace, (53, 55));
+   (KJunk, (55, 58))].
+Proof.
+  split; [repeat constructor|]. split; [reflexivity|]. split; [repeat constructor|].
+  split; [vm_compute; reflexivity|]. split; [reflexivity|]. split; [reflexivity|].
+  split; [repeat constructor|]. split; vm_compute; reflexivity.
+Qed.
+
 (* ---- the block theorem for .dtd (Proofs/C02BlocksDtd.v, C02BlocksDtdRx.v, C02BlocksDtdPeRx.v) ----
    Blocks: whitespace runs, standalone comments <!-- ... -->, entity declarations
    <!ENTITY key "value"> with an optional attached comment, and parameter-entity
@@ -441,6 +592,78 @@ Example C02_blocks_dtd_example :
 Proof.
   destruct C02BlocksDtd.ex_dtd_blocks as [H1 [H2 [H3 _]]]. split; [exact H1|]. split; [exact H2|].
   split; [exact H3|]. reflexivity.
+Qed.
+
+(* ---- junk regions for .dtd (Proofs/C02BlocksDtdJunk.v) --------------------------------------------
+   The blocks of C02_blocks_dtd plus garbage regions [JG g]: any nonempty text that does not start
+   with whitespace or a byte order mark and in which "<" is never directly followed by "!" (stray
+   tags, text, references, brackets; whitespace after the first character is part of the region).
+   A region is followed by the end of the file, a comment or an entity declaration
+   ([jadjacent_ok]; the License rule is tracked through the region).  The walk yields ONE Junk
+   entry per region, covering exactly the region.  Not covered: garbage that itself starts with
+   <!ENTITY or <!-- (broken declarations). *)
+Theorem C02_blocks_dtd_junk : forall bs : list C02BlocksDtdJunk.jblock,
+  Forall C02BlocksDtdJunk.legal_jblock bs -> C02BlocksDtdJunk.jadjacent_ok bs ->
+  walk_dtd (C02BlocksDtdJunk.jfile_text bs) = Ok (C02BlocksDtdJunk.jentries_of bs).
+Proof. exact C02BlocksDtdJunk.blocks_dtd_junk. Qed.
+
+Theorem C02_blocks_dtd_junk_bom : forall (mark : bool) (bs : list C02BlocksDtdJunk.jblock),
+  Forall C02BlocksDtdJunk.legal_jblock bs -> C02BlocksDtdJunk.jadjacent_ok_bom mark bs ->
+  walk_dtd (C02BlocksDtdJunk.jfile_text_bom mark bs) = Ok (C02BlocksDtdJunk.jentries_of_bom mark bs).
+Proof. exact C02BlocksDtdJunk.blocks_dtd_junk_bom. Qed.
+
+(* the entities are exactly the records, the standalone comments the comment blocks, and the
+   texts of the Junk entries are, one for one and in order, exactly the garbage regions *)
+Theorem C02_roundtrip_dtd_junk : forall bs : list C02BlocksDtdJunk.jblock,
+  Forall C02BlocksDtdJunk.legal_jblock bs -> C02BlocksDtdJunk.jadjacent_ok bs ->
+  exists es, walk_dtd (C02BlocksDtdJunk.jfile_text bs) = Ok es /\
+    map (C02Blocks.entity_record (C02BlocksDtdJunk.jfile_text bs)) (filter (C02Blocks.is_kind KEntity) es) =
+      C02BlocksDtdJunk.jrecords_of bs /\
+    map (fun e => C02Blocks.span_text (C02BlocksDtdJunk.jfile_text bs) (e_span e))
+        (filter (C02Blocks.is_kind KComment) es) = C02BlocksDtdJunk.jcomments_of bs /\
+    map (fun e => C02Blocks.span_text (C02BlocksDtdJunk.jfile_text bs) (e_span e))
+        (filter (C02Blocks.is_kind KJunk) es) = C02BlocksDtdJunk.jgarbage_of bs.
+Proof. exact C02BlocksDtdJunk.roundtrip_dtd_junk. Qed.
+
+(* one garbage region inserted between two legal block lists: every record and every standalone
+   comment of both lists is recovered unchanged, in order, and there is exactly ONE Junk entry;
+   its span starts where the text of the first list ends and covers exactly the garbage *)
+Theorem C02_junk_dtd : forall (bs1 : list C02BlocksDtd.block) (g : str) (bs2 : list C02BlocksDtd.block),
+  Forall C02BlocksDtd.legal_block bs1 -> C02BlocksDtdJunk.legal_garbage g = true ->
+  Forall C02BlocksDtd.legal_block bs2 ->
+  C02BlocksDtdJunk.jadjacent_ok (C02BlocksDtdJunk.with_garbage bs1 g bs2) ->
+  let s := C02BlocksDtd.file_text bs1 ++ g ++ C02BlocksDtd.file_text bs2 in
+  let p := length (C02BlocksDtd.file_text bs1) in
+  exists es, walk_dtd s = Ok es /\
+    map (C02Blocks.entity_record s) (filter (C02Blocks.is_kind KEntity) es) =
+      C02BlocksDtd.records_of bs1 ++ C02BlocksDtd.records_of bs2 /\
+    map (fun e => C02Blocks.span_text s (e_span e)) (filter (C02Blocks.is_kind KComment) es) =
+      C02BlocksDtd.comments_of bs1 ++ C02BlocksDtd.comments_of bs2 /\
+    filter (C02Blocks.is_kind KJunk) es = [mk_junk (p, p + length g)] /\
+    slice s p (p + length g) = g.
+Proof. exact C02BlocksDtdJunk.dtd_junk_one_region. Qed.
+
+(*  <!ENTITY a "b"> / "x<y> &amp; " / comment-with-entity, <!ENTITY a "b"> : the premises hold, the
+    region is at offsets 15..26; and a longer file with three regions ("x<y> &amp; ", "]]>" and
+    "<" newline at the end), by evaluation *)
+Example C02_junk_dtd_example :
+  let A := C02BlocksDtd.A in
+  let g := A [120; 60; 121; 62; 32; 38; 97; 109; 112; 59; 32] in
+  let bs1 := [C02BlocksDtd.ex_e1] in let bs2 := [C02BlocksDtd.ex_e2; C02BlocksDtd.ex_e1] in
+  Forall C02BlocksDtd.legal_block bs1 /\ C02BlocksDtdJunk.legal_garbage g = true /\
+  Forall C02BlocksDtd.legal_block bs2 /\
+  C02BlocksDtdJunk.jadjacent_ok (C02BlocksDtdJunk.with_garbage bs1 g bs2) /\
+  length (C02BlocksDtd.file_text bs1) = 15 /\ length g = 11 /\
+  let JB := C02BlocksDtdJunk.JB in let JG := C02BlocksDtdJunk.JG in
+  let bs := [JB C02BlocksDtd.ex_e1; C02BlocksDtdJunk.jx_g; JB C02BlocksDtd.ex_e2; JB C02BlocksDtd.ex_b;
+             JB C02BlocksDtd.ex_c; JG (A [93; 93; 62]); JB C02BlocksDtd.ex_e1; JG (A [60; 10])] in
+  Forall C02BlocksDtdJunk.legal_jblock bs /\ C02BlocksDtdJunk.jadjacent_ok bs /\
+  filter (C02Blocks.is_kind KJunk) (C02BlocksDtdJunk.jentries_of bs) =
+    [mk_junk (15, 26); mk_junk (87, 90); mk_junk (105, 107)].
+Proof.
+  split; [repeat constructor|]. split; [reflexivity|]. split; [repeat constructor|].
+  split; [vm_compute; reflexivity|]. split; [reflexivity|]. split; [reflexivity|].
+  split; [repeat constructor|]. split; vm_compute; reflexivity.
 Qed.
 
 (* ---- the block theorem for .po ---------------------------------------------------------------
@@ -502,7 +725,8 @@ Example C02_po_one_blank_line :
 Proof. exact C02BlocksPo.px_one_blank_line. Qed.
 
 (* ---- stated, NOT PROVED ---------------------------------------------------------------------
-   Still missing: junk regions for ini, inc, dtd, po; in .properties blanks between a value and
+   Still missing: junk regions for po (and DTD garbage that starts with <!ENTITY or <!--, inc garbage
+   with a # in it); in .properties blanks between a value and
    its newline, indentation between an attached comment and its key, garbage that shares a line
    with a following comment, garbage without final newline at the end of the file; Fluent and
    Android (library parsers: oracle only).  The executable counterpart of all of it is the
